@@ -89,6 +89,13 @@ def gen_strings(tier, rnd):
             b = benign(s)
             lines.append(T(build(b), annot='#grp=s%d #strs=%s' % (g, ','.join(hx(x) for x in strs(b) + ['/dev/x']))))
             lines.append(T(build(s), annot='#grp=s%d #strs=%s' % (g, ','.join(hx(x) for x in strs(s) + ['/dev/x']))))
+    # every octal escape value: the character it denotes is user text inside the template
+    for v in list(range(0, 256)) + [256, 0o377, 0o400, 0o776, 0o777]:
+        g += 1
+        tree = lambda code: '(A (PrintFormatted (# (Lit %s) (Spc (Ascii %d)) (Fld Name) (Spc Newline))))' % (sx_str('a'), code)
+        leaf = lambda code: 'a' + chr(code).replace('~', '~~') + '~a\n'
+        lines.append(T(tree(65), annot='#grp=s%d #strs=%s' % (g, ','.join([hx(leaf(65)), hx('/dev/x')]))))
+        lines.append(T(tree(v), annot='#grp=s%d #strs=%s' % (g, ','.join([hx(leaf(v)), hx('/dev/x')]))))
     # strftime conversion character and the device path
     for c in C04_ALPHABET + ['k', 'Y']:
         g += 1
@@ -105,7 +112,7 @@ def gen_strings(tier, rnd):
             if q in s or not s:
                 continue
             lines.append('C %s %s #strs=%s' % (hx('-name %s%s%s -fprint %s%s%s' % (q, s, q, q, s, q)), DEV, ','.join([hx(s), hx('/dev/x')])))
-    return lines, {'rule': '%d string-carrying sites x all strings of length 1..%d over the 14-symbol alphabet (quote, backslash, tilde, percent, parentheses, semicolon, hash, apostrophe, newline, tab, space, a, e-acute) plus 17 Unicode classes (C0, DEL and C1 controls, 1..4-byte characters, separators, noncharacters) alone and embedded, plus random strings up to 40 characters (with glob, control and non-BMP characters); each hostile string paired with a benign string of the same glob class; strftime characters; device paths; the same strings through the parser in both quoting styles; non-trivial = every request' % (len(sites), maxlen),
+    return lines, {'rule': '%d string-carrying sites x all strings of length 1..%d over the 14-symbol alphabet (quote, backslash, tilde, percent, parentheses, semicolon, hash, apostrophe, newline, tab, space, a, e-acute) plus 17 Unicode classes (C0, DEL and C1 controls, 1..4-byte characters, separators, noncharacters) alone and embedded, plus random strings up to 40 characters (with glob, control and non-BMP characters); each hostile string paired with a benign string of the same glob class; every octal escape value 0..0777 inside a template; strftime characters; device paths; the same strings through the parser in both quoting styles; non-trivial = every request' % (len(sites), maxlen),
                    'streams': {'strings': len(lines)}}
 
 
@@ -142,7 +149,12 @@ def gen_histories_c20(tier, rnd):
         if rnd.random() < 0.5:
             ps[-1] = ps[0]
         lines.append('C %s %s' % (hx(rand_compilable_text(rnd)), ' '.join(hx(p) for p in ps)))
-    return lines, {'rule': '%d random compiled expressions, each rendered 2..5 times for device paths drawn from benign and hostile strings (quotes, backslashes, spaces, non-ASCII, 300 characters), with repeats, a destination-table query after every render; non-trivial = every request' % n,
+    # user strings that look like a template slot or like the device path itself must stay what they are
+    markers = ['{mdt}', '{}', '{0}', '{device}', '%s', '%MDT%', '$mdt', '${mdt}', '@MDT@', 'MDT', '~a', '/dev/x', '/dev/mdt0', '"/dev/x"', '<mdt>', '__MDT__']
+    for mk in markers:
+        for text in ['-name %s -print' % mk, '-path */%s/* -print0' % mk, "-printf '%s:%%p\\n'" % mk, '-fprint %s' % mk, '-pool %s' % mk, '-xattr-match %s %s' % (mk, mk)]:
+            lines.append('C %s %s' % (hx(text), ' '.join(hx(p) for p in ['/dev/x', '/dev/mdt0', 'fs~MDT0000', mk, '/dev/x'])))
+    return lines, {'rule': 'every string site carrying each of 16 slot-like or device-like markers ({mdt}, {}, %%s, $mdt, the device path itself ...) rendered for 5 devices, plus %d random compiled expressions, each rendered 2..5 times for device paths drawn from benign and hostile strings (quotes, backslashes, spaces, non-ASCII, 300 characters), with repeats, a destination-table query after every render; non-trivial = every request' % n,
                    'streams': {'histories': len(lines)}}
 
 
@@ -165,7 +177,7 @@ def gen_resources(tier, rnd):
             else:
                 if framed:
                     fpool = files if k < 50 else ['f%d' % rnd.randint(0, k)]
-                    leaves.append('(A %s)' % rnd.choice(['Print', 'PrintNull', '(FilePrint %s)' % sx_str(rnd.choice(fpool)), '(FilePrintNull %s)' % sx_str(rnd.choice(fpool)),
+                    leaves.append('(A %s)' % rnd.choice(['Print', 'PrintNull', 'Print', 'PrintFid', '(FilePrint %s)' % sx_str(rnd.choice(fpool)), '(FilePrintNull %s)' % sx_str(rnd.choice(fpool)),
                                                         '(PrintFormatted (# (Fld Name)))', '(FilePrintFormatted %s (# (Fld Name) (Spc Newline)))' % sx_str(rnd.choice(fpool))]))
                 else:
                     leaves.append('(A %s)' % rnd.choice(['Print', '(PrintFormatted (# (Fld Name) (Spc Newline)))', 'PrintFid', 'Print']))
@@ -267,7 +279,15 @@ def gen_histories_c15(tier, rnd):
     rnd.shuffle(seq)
     for i, t in seq:
         lines.append('C %s %s #grp=h%d' % (hx(t), DEV, i))
-    return lines, {'rule': '%d random expressions (biased to many matchers, printers and time tests), each parsed+compiled+rendered three times in one process, interleaved in random order with the others; the same stream is then run in two more fresh processes and compared observation by observation (clock readings normalised); non-trivial = every request' % n,
+    # histories in which the wall clock advances after a REJECTED compile that had already reached a time test
+    # (state left behind by a failed call must not leak into the next one)
+    rejected = ['-mmin -5 -user root', '-mtime +1 -prune', "-amin 3 -printf '%d'", '-cmin 7 -o -newer x', '-atime 1 -ls', '( -mmin 2 -regex x ) -o -true']
+    for k, bad in enumerate(rnd.sample(rejected, 2 if tier == 'quick' else len(rejected))):
+        lines.append('C %s %s' % (hx(bad), DEV))
+        lines.append('Z 1100')
+        lines.append('C %s %s' % (hx(rnd.choice(['-mmin -5', '-mtime +1 -print', '-amin 3 -o -cmin 7'])), DEV))
+        lines.append('C %s %s' % (hx('-ctime 2 -print0'), DEV))
+    return lines, {'rule': '%d random expressions (biased to many matchers, printers and time tests), each parsed+compiled+rendered three times in one process, interleaved in random order with the others; a few histories in which a compile that is rejected AFTER reaching a time test is followed by a one-second pause and further compiles; the same stream is then run in two more fresh processes and compared observation by observation (clock readings normalised); non-trivial = every request' % n,
                    'streams': {'histories': len(lines)}}
 
 
